@@ -586,6 +586,7 @@ def execute(sim, plan):
     world.setup_sim(sim)
     scratch = os.environ["VERIF_SCRATCH"]
     T.relativise_log(sim, os.path.join(scratch, "t0"))
+    T.mask_content_names(sim)
     s, s2 = plan["s"], plan.get("s2")
     unguarded = set(plan.get("unguarded", ()))
     write_rules(s, s2)
